@@ -1,11 +1,15 @@
-"""Mutation self-test (DESIGN.md §9 "both ways"): every break-patch kept under seeded/ and selftest/ must be reported by the
-check of its property when applied to a scratch copy of /repo's current working tree.
+"""Self-test of the rule set, both ways (DESIGN.md §9): every break-patch kept under seeded/ and selftest/ must be reported by the
+check of its property, and every behaviour-preserving patch kept under benign/ must leave it silent, when applied to a scratch
+copy of /repo's current working tree.
 
-The scratch copy lives outside /repo and /verif and is removed, with its build output, as soon as the run ends. A patch that
-no longer applies, or a mutation that is not reported, is a *self-test* failure (printed as SELFTEST-MISS), never a property
-violation.
+The scratch copy lives outside /repo and /verif and is removed, with its build output, as soon as its facts are extracted; the
+facts are kept under .cache/regress/<key> (key = patch content + hash of /repo's tree + driver hash) so that the 20 thorough
+checks and the developer sweep (tools/regress.py) pay for one extraction per patch.  A patch that no longer applies, a mutation
+that is not reported, or a benign patch that raises an alarm is a *self-test* failure (SELFTEST-MISS / SELFTEST-FALSE-ALARM /
+SELFTEST-ERROR lines), never a property violation.
 """
 import glob
+import hashlib
 import json
 import os
 import shutil
@@ -15,6 +19,8 @@ import tempfile
 from concurrent.futures import ThreadPoolExecutor
 
 import harness
+
+ROOT = os.path.join(harness.CACHE, "regress")
 
 # mutations whose break shows up under another property's rules as well (or instead)
 ALSO = {
@@ -35,49 +41,110 @@ def patches_for(prop):
     return out
 
 
-def one(prop, sid, patch):
+def benign_patches():
+    return [(os.path.basename(d), os.path.join(d, "patch.diff")) for d in sorted(glob.glob(os.path.join(harness.VERIF, "benign", "*")))
+            if os.path.exists(os.path.join(d, "patch.diff"))]
+
+
+def base_key():
+    if not os.path.exists(harness.DRIVER):
+        harness.build_engines()
+    return harness.repo_hash(extra=harness._sha(harness.DRIVER))
+
+
+def facts_for(patch, bkey):
+    """facts directory of (/repo's current tree + patch); extracted once, then cached. -> (dir | None, error | None)"""
+    key = hashlib.sha256((bkey + harness._sha(patch)).encode()).hexdigest()[:24]
+    d = os.path.join(ROOT, key)
+    if os.path.exists(os.path.join(d, "DONE")):
+        return d, None
+    os.makedirs(ROOT, exist_ok=True)
+    shutil.rmtree(d, ignore_errors=True)
+    os.makedirs(d)
     scratch = tempfile.mkdtemp(prefix="verif-selftest-")
+    target = tempfile.mkdtemp(prefix="verif-selftest-target-")
     try:
-        for item in ("crates", "Cargo.toml", "Cargo.lock"):
-            src = os.path.join(harness.REPO, item)
-            dst = os.path.join(scratch, item)
+        for it in ("crates", "Cargo.toml", "Cargo.lock"):
+            src = os.path.join(harness.REPO, it)
+            dst = os.path.join(scratch, it)
             if os.path.isdir(src):
                 shutil.copytree(src, dst, ignore=shutil.ignore_patterns("target"))
             elif os.path.exists(src):
                 shutil.copy(src, dst)
-        r = subprocess.run(["patch", "-p1", "-s", "--no-backup-if-mismatch", "-i", patch], cwd=scratch, stdout=subprocess.PIPE, stderr=subprocess.STDOUT, text=True)
+        r = subprocess.run(["patch", "-p1", "-s", "--no-backup-if-mismatch", "-i", patch], cwd=scratch, stdout=subprocess.PIPE,
+                           stderr=subprocess.STDOUT, text=True)
         if r.returncode != 0:
-            return sid, "patch-does-not-apply", r.stdout[-300:]
-        env = dict(os.environ)
-        env["VERIF_REPO"] = scratch
-        env["VERIF_SUBRUN"] = "1"
-        r = subprocess.run([sys.executable, os.path.join(harness.VERIF, "rules", "run.py"), prop, "--tier", "quick"], env=env,
-                           stdout=subprocess.PIPE, stderr=subprocess.STDOUT, text=True)
-        viol = [l for l in r.stdout.split("\n") if l.startswith("VIOLATION")]
-        keys = [l.strip().split(" @ ")[0] for l in r.stdout.split("\n") if l.startswith("  R") and " @ " in l]
-        if r.returncode == 1 and viol:
-            return sid, "caught", keys[:4]
-        if r.returncode == 2:
-            return sid, "error", r.stdout[-400:]
-        return sid, "missed", r.stdout[-300:]
+            shutil.rmtree(d, ignore_errors=True)
+            return None, "patch-does-not-apply: " + r.stdout[-200:]
+        env = harness.offline_env()
+        env["LD_LIBRARY_PATH"] = harness.nightly_sysroot() + "/lib"
+        env["RUSTFLAGS"] = "-Zmir-opt-level=0 -Awarnings"
+        env["RUSTC_WORKSPACE_WRAPPER"] = harness.DRIVER
+        env["FACTDRV_OUT"] = d
+        env["CARGO_TARGET_DIR"] = target
+        r = harness.sh("cargo +nightly check --workspace --offline", cwd=scratch, env=env)
+        if r.returncode != 0 or not any(f.endswith(".json") for f in os.listdir(d)):
+            shutil.rmtree(d, ignore_errors=True)
+            return None, "does-not-build: " + r.stdout[-300:]
+        os.makedirs(os.path.join(d, "_raw"), exist_ok=True)
+        shutil.copy(os.path.join(scratch, "crates/parser/src/parser/grammar.pest"), os.path.join(d, "_raw", "grammar.pest"))
+        open(os.path.join(d, "DONE"), "w").write(json.dumps({"patch": patch}))
+        return d, None
     finally:
         shutil.rmtree(scratch, ignore_errors=True)
+        shutil.rmtree(target, ignore_errors=True)
 
 
-def run(prop, workers=4):
-    ps = patches_for(prop)
-    if not ps:
-        return {"patches": 0, "caught": [], "missed": [], "errors": []}
-    res = {"patches": len(ps), "caught": [], "missed": [], "errors": []}
+def evaluate(props, d):
+    """run the quick rules of `props` on the facts in d -> dict(rc, violations=[rule keys], undecided=[keys], errors=[lines], out)"""
+    env = dict(os.environ)
+    env["VERIF_FACTS_DIR"] = d
+    env["VERIF_SUBRUN"] = "1"
+    env["VERIF_TIER"] = "quick"
+    r = subprocess.run([sys.executable, os.path.join(harness.VERIF, "rules", "run.py")] + list(props) + ["--tier", "quick"], env=env,
+                       stdout=subprocess.PIPE, stderr=subprocess.STDOUT, text=True)
+    lines = r.stdout.split("\n")
+    keys = [l.strip().split(" @ ")[0] for l in lines if l.startswith("  R") and " @ " in l]
+    und = [l.strip()[len("UNDECIDED "):].split(": ")[0] for l in lines if l.startswith("  UNDECIDED")]
+    err = [l for l in lines if l.startswith("ERROR") or "Traceback" in l or l.startswith("RULE-CRASH")]
+    return {"rc": r.returncode, "violations": keys, "undecided": und, "errors": err, "out": r.stdout}
+
+
+def run(prop, workers=5):
+    muts = patches_for(prop)
+    ben = benign_patches()
+    res = {"patches": len(muts), "caught": [], "missed": [], "errors": [], "benign_patches": len(ben), "benign_silent": 0,
+           "false_alarms": []}
+    if not muts and not ben:
+        return res
+    bkey = base_key()
+    items = [("mut", sid, p) for sid, p in muts] + [("benign", sid, p) for sid, p in ben]
+
+    def one(it):
+        kind, sid, patch = it
+        d, err = facts_for(patch, bkey)
+        if err:
+            return kind, sid, None, err
+        return kind, sid, evaluate([prop], d), None
+
     with ThreadPoolExecutor(max_workers=workers) as ex:
-        for sid, status, info in ex.map(lambda a: one(prop, *a), ps):
-            if status == "caught":
-                res["caught"].append({"mutation": sid, "reported": info})
-                print("  selftest %-8s caught by %s" % (sid, ", ".join(info[:2])))
-            elif status == "missed":
-                res["missed"].append(sid)
-                print("SELFTEST-MISS property=%s mutation=%s is not reported" % (prop, sid))
+        for kind, sid, r, err in ex.map(one, items):
+            if err or r["rc"] == 2 or (r["errors"] and not r["violations"]):
+                res["errors"].append({"patch": sid, "info": err or (r["errors"] or [r["out"][-200:]])[0]})
+                print("SELFTEST-ERROR property=%s patch=%s %s" % (prop, sid, (err or "check error")[:160]))
+            elif kind == "mut":
+                if r["violations"]:
+                    res["caught"].append({"mutation": sid, "reported": r["violations"][:4]})
+                    print("  selftest %-10s caught by %s" % (sid, ", ".join(r["violations"][:2])))
+                else:
+                    res["missed"].append(sid)
+                    print("SELFTEST-MISS property=%s mutation=%s is not reported" % (prop, sid))
             else:
-                res["errors"].append({"mutation": sid, "status": status, "info": info})
-                print("SELFTEST-ERROR property=%s mutation=%s %s" % (prop, sid, status))
+                if r["violations"]:
+                    res["false_alarms"].append({"patch": sid, "reported": r["violations"][:4]})
+                    print("SELFTEST-FALSE-ALARM property=%s benign=%s raises %s" % (prop, sid, ", ".join(r["violations"][:3])))
+                else:
+                    res["benign_silent"] += 1
+    print("  selftest %s: %d/%d mutations reported, %d/%d behaviour-preserving patches silent" % (
+        prop, len(res["caught"]), len(muts), res["benign_silent"], len(ben)))
     return res
